@@ -114,6 +114,9 @@ class Generator(SchemaVisitor[Any]):
 
         if schema.props.alphabet is not Nil:
             alphabet = schema.props.alphabet
+            if len(alphabet) == 0:
+                # nothing can be drawn from an empty alphabet: only the substring (or "") fits
+                length = len(schema.props.substr) if (schema.props.substr is not Nil) else 0
         else:
             alphabet = STR_ALPHABET
 
